@@ -147,7 +147,7 @@ func genOutput(r *rand.Rand, lines int, maxLine int, nl string, withEsc, withMB 
 }
 
 // cliMarks / ncMarks: bytes around which the "marks" segmentation mode places its cuts.
-const cliMarks = "\n\r#>$:\x1b \x07"
+const cliMarks = "\n\r#>$:\x1b\x07"
 const ncMarks = "#]<>\n\"=/"
 
 // cutLists is the cut enumeration: the list of read-boundary sets (one sub-run each) for the
